@@ -45,7 +45,11 @@ def tm(L, issues, *pairs):
     return ms
 
 
+ACC_LOG = []      # (what, accessor type token) of the struct being parsed: the accessor name is where Python states signedness
+
+
 def width(t, issues, what):
+    ACC_LOG.append((what, t))
     if t not in W:
         issues.append("%s: unknown type token %r" % (what, t))
         return 0
@@ -157,7 +161,7 @@ def parse_encode(L, st):
             nxt = re.fullmatch(r"buffer\.write_%s\(self\.(%s)\)" % (T, ID), L.peek() or "")
             if nxt and nxt.group(3) == ident:
                 tm(L, I, (B, r".*"))
-                E.append(["checksum", m[0].group(1), width(nxt.group(1), I, "checksum write"), nxt.group(2) is not None, ident])
+                E.append(["checksum", m[0].group(1), width(nxt.group(1), I, "checksum write of %s" % ident), nxt.group(2) is not None, ident])
             else:
                 I.append("checksum %s is computed but never written" % ident)
                 E.append(["skip", "checksum %s computed, not written" % ident])
@@ -462,12 +466,23 @@ def extract_file(name, text, out):
                     I.append("__init__ has an empty body (invalid Python)")
             else:
                 I.append("no __init__")
+            del ACC_LOG[:]
             if tm(L, I, (C1, r"def encode\(self, buffer: ByteBuf\):")):
                 parse_encode(L, st)
             else:
                 I.append("no encode")
             if tm(L, I, (C1, r"def decode\(self, buffer: ByteBuf\):")):
                 parse_decode(L, st)
+                # accessor type tokens per member: {member: [tokens]} (writes, reads, elements; prefixes and patches apart)
+                acc = {}
+                for what, t in ACC_LOG:
+                    mm2 = re.fullmatch(r"(?:write|read|checksum write) of (%s)(?:\[i\]| element)?" % ID, what)
+                    if mm2:
+                        acc.setdefault(mm2.group(1), [])
+                        if t not in acc[mm2.group(1)]:
+                            acc[mm2.group(1)].append(t)
+                st["accessors"] = acc
+                st["patch_accessors"] = sorted({t for what, t in ACC_LOG if what in ("length placeholder", "length patch")})
             else:
                 I.append("no decode")
             if tm(L, I, (C1, r"def __eq__\(self, other\):")):
